@@ -18,6 +18,21 @@ var OddPodKinds = []string{"nocontainers", "norequests", "affinityEmpty", "nodeA
 // applyOddNode registers a node of group a.Group backed by a fresh ASG instance, then bends it.
 func (w *World) applyOddNode(a Action) {
 	g := w.ASG(a.Group)
+	if a.Key == "dupprov" {
+		// a kubelet re-registered under another node name: a second, younger node object for an
+		// instance that already has one (the old object lingers until it is garbage collected)
+		names := w.GroupNodeNames(a.Group)
+		if len(names) == 0 {
+			return
+		}
+		src := w.K.Nodes[names[a.N%len(names)]]
+		if inst := w.A.Instances[instanceIDOf(src.Spec.ProviderID)]; inst != nil {
+			n := w.NewNodeFor(a.Group, inst, time.Now())
+			n.Spec.ProviderID = src.Spec.ProviderID
+			w.K.PutNode(n)
+		}
+		return
+	}
 	inst := w.A.NewInstance(g.Name)
 	n := w.NewNodeFor(a.Group, inst, time.Now().Add(-time.Duration(a.N)*time.Second))
 	switch a.Key {
